@@ -7,7 +7,7 @@ import os
 
 from vlib.core import VERIF, AnalysisError, Report
 from vlib.flow import enclosing_tries, handler_types, parent_map
-from vlib.match import closure_fi, has_call, nodes
+from vlib.match import closure_fi, deref, has_call, nodes
 from vlib.srcindex import ModuleInfo, SourceIndex, attr_chain, const_str, mangle, unparse, walk_no_nested
 from vlib.stores import effects_of, stores_of
 
@@ -411,7 +411,7 @@ def rule_e(rep: Report, idx: SourceIndex) -> None:
 	for n in ast.walk(tt.node):
 		if isinstance(n, ast.Call) and isinstance(n.func, ast.Attribute) and n.func.attr == 'extends':
 			for a in n.args:
-				v = a.value if isinstance(a, ast.Starred) else a
+				v = deref(tt.node, a.value if isinstance(a, ast.Starred) else a)
 				if isinstance(v, (ast.ListComp, ast.GeneratorExp)) and isinstance(v.elt, ast.Call) and isinstance(v.elt.func, ast.Attribute) and v.elt.func.attr in ('to_temporary', 'clone') and 'attrs' in unparse(v.generators[0].iter):
 					deep = True
 	r.check(deep, 'to_temporary-is-deep', tt.where, 'ReflectionBase.to_temporary no longer clones each nested attribute with to_temporary(): the copy shares its nested attrs with the declaration symbol stored in the SymbolDB, so a type variable resolved two or more levels deep (dict[str, list[T]]) is written into the shared symbol and the first actual type sticks for every later module', unparse(tt.node)[-160:])
@@ -632,7 +632,7 @@ def _rule_db_unload(r, su) -> None:
 					other = a.comparators[0] if unparse(a.left) == mp else a.left
 					verdicts.append(('ok', '') if '__paths' in unparse(other) or isinstance(other, ast.Name) else ('unknown', f'`{unparse(a)}` does not compare with the recorded module of the key'))
 				elif memb:
-					continue
+					verdicts.append(('bad', f'`{unparse(a)}` is {p_} (the deletion happens only for a module carrying the completed mark, but a module whose preprocessing was rejected half way has symbols in the table and no mark: they survive the unload and the re-submitted source is transpiled against declarations of the rejected one)'))
 				else:
 					verdicts.append(('bad', f'`{unparse(a)}` (expected: recorded module of the key == {mp})'))
 	if any(v == 'bad' for v, _ in verdicts):
